@@ -6,7 +6,7 @@ from specs import graphpred
 PROP = "C04"
 LEVEL = "exploration"
 ENGINE = "pyvc+bounded"
-HARNESS_MODULES = ['contracts.c04_graph_plumbing']
+HARNESS_MODULES = ['contracts.c04_graph_plumbing', 'contracts.c04_emission']
 EXTRA_HARNESSES = []
 MOD = "props.C04"
 
@@ -76,6 +76,8 @@ def descs(tier):
 
 
 def bounded(tier, seed, rep):
+    from bounded import leancheck
+    leancheck.check(rep, "lean/C04Connected.lean", "C04.enc_iff_connected")
     from bounded import graphprops
     emission.run_parallel(rep, PROP, MOD, list(graphprops.with_builds(list(descs(tier)) + graphprops.deep_descs(PROP, tier))))
 
